@@ -342,27 +342,64 @@ var runMu sync.Mutex
 func init() { bstream.GetProtocolFirstStreamableBlock = 0 }
 
 // Run: one request against the real tier1 service.  A request that does not finish within its time-out is run a
-// second time, on the cache as the first attempt left it, with four times the time-out: a machine under load (sixteen
-// scenarios in parallel, other checks running) can stretch a 50 ms request beyond any fixed bound, while a request that
-// is really stuck is stuck again.  Only the second time-out is reported as "the request does not finish"; the first is
-// counted (Result.SlowRetries).
+// second time — on a copy of the cache as it was BEFORE the first attempt, with the same seeded completion order and
+// four times the time-out: a machine under load (sixteen scenarios in parallel, other checks running) can stretch a
+// 50 ms request beyond any fixed bound, while a request that is stuck because of the files it found and the order in
+// which its jobs answered is stuck again.  Only the second time-out is reported as "the request does not finish"; the
+// first is counted (Result.SlowRetries).
 func (w *World) Run(dir string, req Req, opts Opts) *Result {
+	retry := !opts.NoTimeoutRetry && opts.Feed == nil // (a custom feed records into the caller's state: never re-run)
+	pre := dir + ".pre"
+	var sched common.Rng
+	if retry {
+		os.RemoveAll(pre)
+		copyTree(dir, pre)
+		if opts.Sched != nil {
+			sched = *opts.Sched
+		}
+	}
 	r := w.runOnce(dir, req, opts)
-	if r.Err != nil && r.ErrClass() == "timeout" && !opts.NoTimeoutRetry && opts.Feed == nil { // (a custom feed records into the caller's state: never re-run)
+	if retry {
+		defer os.RemoveAll(pre)
+	}
+	if r.Err != nil && r.ErrClass() == "timeout" && retry {
 		o2 := opts
 		if o2.Timeout == 0 {
 			o2.Timeout = 60 * time.Second
 		}
 		o2.Timeout *= 4
-		if o2.Sched != nil {
-			o2.Sched = o2.Sched.Fork()
+		if opts.Sched != nil {
+			s2 := sched
+			o2.Sched = &s2
 		}
+		time.Sleep(50 * time.Millisecond) // stragglers of the first attempt (asynchronous snapshot writes)
+		os.RemoveAll(dir)
+		copyTree(pre, dir)
 		r2 := w.runOnce(dir, req, o2)
 		r2.SlowRetries = r.SlowRetries + 1
 		r2.Jobs = append(append([]string{}, r.Jobs...), r2.Jobs...)
 		return r2
 	}
 	return r
+}
+
+// copyTree copies a directory tree (nothing when src does not exist)
+func copyTree(src, dst string) {
+	filepath.Walk(src, func(p string, info os.FileInfo, err error) error {
+		if err != nil {
+			return nil
+		}
+		rel, _ := filepath.Rel(src, p)
+		if info.IsDir() {
+			os.MkdirAll(filepath.Join(dst, rel), 0o755)
+			return nil
+		}
+		if b, err := os.ReadFile(p); err == nil {
+			os.MkdirAll(filepath.Dir(filepath.Join(dst, rel)), 0o755)
+			os.WriteFile(filepath.Join(dst, rel), b, 0o644)
+		}
+		return nil
+	})
 }
 
 func (w *World) runOnce(dir string, req Req, opts Opts) *Result {
